@@ -10,10 +10,10 @@ import (
 func init() {
 	register(&PropertyDef{
 		ID: "C04",
-		Explanation: "Structural necessary conditions of C04 on all CFG paths: (R04.1) each native unwrap returns a file key only as the output of the AEAD open / OAEP decrypt whose error is nil on that path; " +
+		Explanation: "Structural necessary conditions of C04 on all CFG paths (R04.10: the sentinel is only ever wrapped with %w, never formatted into a message): (R04.1) each native unwrap returns a file key only as the output of the AEAD open / OAEP decrypt whose error is nil on that path; " +
 			"(R04.2) in the X25519 and scrypt unwrap, every return on the AEAD-failure edge other than the size error is the ErrIncorrectIdentity sentinel (or wraps it with %w); " +
 			"(R04.3) in the two SSH unwraps the private-key operation is dominated by Args[0] == sshFingerprint(i.sshKey) and the other edge returns the sentinel; " +
-			"(R04.4) Decrypt returns *NoIdentityMatchError exactly under fileKey == nil after the loop and appends each identity's error once, on the sentinel edge; (R03.6) no reader on error.",
+			"(R04.4) Decrypt returns *NoIdentityMatchError exactly under fileKey == nil after the loop and appends each identity's error once, on the sentinel edge; (R03.6) no reader on error. (R04.9) the payload reader is untouched until identities were consulted and the MAC compared, so the no-match error depends on header and identities alone.",
 		NotDecided:  "that a near-miss key or passphrase actually fails the AEAD (cryptographic fact).",
 		Assumptions: []string{"errors.Is semantics", "AEAD.Open / rsa.DecryptOAEP return a non-nil error on authentication failure"},
 		Run:         runC04,
@@ -435,6 +435,29 @@ func runC04(p *Program, r *Result) {
 	r.Rule("R03.6", "every error return carries a nil reader", 8)
 	checkNothingOnError(p, r, dec, map[string]bool{newReader.String(): true})
 	checkNothingOnError(p, r, newReader, nil)
+	r.Rule("R04.10", "the incorrect-identity sentinel is never flattened into a message: where it is an operand of fmt.Errorf the format wraps it with %w, so every cause collected in the no-match error still indicates an incorrect identity", 1)
+	{
+		n := 0
+		for _, fn := range p.Funcs {
+			if fn.Pkg == nil || !(isLibPkg(fn.Pkg.Pkg.Path()) || fn.Pkg.Pkg.Path() == pkgCmdAge) {
+				continue
+			}
+			ftb := p.TB(fn)
+			for _, c := range callsTo(fn, "fmt.Errorf") {
+				t := short(ftb.Term(c.Value()).String())
+				if !strings.Contains(t, "age.ErrIncorrectIdentity") {
+					continue
+				}
+				n++
+				k, isK := c.Common().Args[0].(*ssa.Const)
+				okw := isK && k.Value != nil && strings.Contains(k.Value.ExactString(), "%w")
+				r.Check(okw, fn.String(), "sentinel-wrapped#"+itoa(n), r.pos(c), "the sentinel is an operand of a %w format", "ErrIncorrectIdentity is formatted into an error without %w ("+t+"): errors.Is no longer sees it, so Decrypt aborts with this error instead of collecting it and trying the next identity")
+			}
+		}
+		if n == 0 {
+			r.OK(pkgAge, "sentinel-wrapped:none", "", "the sentinel is nowhere an operand of fmt.Errorf")
+		}
+	}
 	r.Rule("R04.9", "identities are consulted, and the no-match error decided, before anything is read from the payload (= R03.9)", 1)
 	checkPayloadAfterMAC(p, r, dec)
 }
